@@ -626,6 +626,27 @@ var phl1 = func(a int) int {
 	return x
 }
 
+// LitGen is generic; Lit2's first call goes to the body of its int instantiation
+//
+//go:noinline
+func LitGen[T any](a T, n int) int { return n*17 + 600 }
+
+var Lit2 = func(a int) int { return LitGen[int](a, a) + 3 }
+
+var phl3 = func(a int) int {
+	x := a
+	for i := 0; i < len(sink); i++ {
+		x = x*37 + i
+		sink[i&7] -= x
+		if x&3 == 0 {
+			x ^= sink[(i+2)&7]
+		}
+		sink[(i+3)&7] ^= x << 1
+		x += sink[(i+1)&7]*11 - sink[(i+6)&7]*19
+	}
+	return x
+}
+
 // CLoop is a loop whose back edge comes from behind the first 13 bytes and lands inside them: goom cannot relocate its
 // prologue into an origin placeholder and refuses an apply that asks for one
 //
